@@ -12,6 +12,7 @@ import (
 	"strings"
 	"sync"
 	"sync/atomic"
+	"time"
 
 	"verif.local/vk"
 )
@@ -884,5 +885,170 @@ func c18RunMR(m *vk.M, idx int, sc c18MRScn) bool {
 		m.Sample(map[string]any{"kind": "managedresource", "workers": nworkers, "lockstep_rounds": sc.Rounds, "takes": ntakes, "takes_panicked_in_generate": nboom,
 			"markbroken_of_taken": nmarks, "distinct_resources_reported_broken": len(firstMarkCall), "generations": len(gens)})
 	}
+	return true
+}
+
+// ---------------------------------------------------------------- two instances, same key
+
+// c18IsoScn: two independent instances (A and B) of one primitive are used with the SAME
+// key. A's call is parked inside its callback on a gate; B's calls are issued meanwhile.
+// Exclusion and sharing are per instance: B's calls must run their own callbacks and get
+// their own results while A is still parked, and ResourceManager B creates, hands out
+// and closes its own resource.
+type c18IsoScn struct {
+	Kind   string `json:"kind"` // sf | lc | rm
+	BCalls int    `json:"bcalls"`
+	Ex     bool   `json:"ex,omitempty"`
+	Procs  int    `json:"procs"`
+}
+
+func c18GenIso(r interface{ Intn(int) int }) c18IsoScn {
+	return c18IsoScn{Kind: []string{"sf", "lc", "rm"}[r.Intn(3)], BCalls: 1 + r.Intn(3), Ex: r.Intn(2) == 0}
+}
+
+func c18RunIso(m *vk.M, idx int, sc c18IsoScn) bool {
+	desc := fmt.Sprintf("case=%d;two-instances;%s", idx, vk.JSON(sc))
+	m.Current(desc)
+	name := map[string]string{"sf": "singleflight", "lc": "lockedcalls", "rm": "resourcemanager"}[sc.Kind]
+	const key = "shared-key"
+	var (
+		gate     = make(chan struct{})
+		aEntered int32
+		bRan     int32 // B callbacks that ran
+		bDone    int32 // B calls that returned
+		bWrong   int32 // B calls that returned something else than their own callback's product
+		wg       sync.WaitGroup
+	)
+	sfA, sfB := NewSingleFlight(), NewSingleFlight()
+	lcA, lcB := NewLockedCalls(), NewLockedCalls()
+	rmA, rmB := NewResourceManager(), NewResourceManager()
+	resA := &c18Closer{id: 1, key: 0}
+	var resB []*c18Closer
+	var bmu sync.Mutex
+	// A: parked inside its callback
+	wg.Add(1)
+	go func() {
+		defer wg.Done()
+		fn := func() (any, error) {
+			atomic.StoreInt32(&aEntered, 1)
+			<-gate
+			return int64(-1), nil
+		}
+		switch sc.Kind {
+		case "sf":
+			_, _ = sfA.Do(key, fn)
+		case "lc":
+			_, _ = lcA.Do(key, fn)
+		default:
+			_, _ = rmA.Get(key, func() (io.Closer, error) {
+				atomic.StoreInt32(&aEntered, 1)
+				<-gate
+				return resA, nil
+			})
+		}
+	}()
+	if !vk.WaitUntil(c18Watchdog, func() bool { return atomic.LoadInt32(&aEntered) == 1 }) {
+		close(gate)
+		m.Inconclusive("case %d (two instances %s): A's callback was not entered within %v", idx, sc.Kind, c18Watchdog)
+		return false
+	}
+	// B: sequential calls by one goroutine on the other instance, same key
+	wg.Add(1)
+	go func() {
+		defer wg.Done()
+		for j := 0; j < sc.BCalls; j++ {
+			want := int64(100 + j)
+			fn := func() (any, error) {
+				atomic.AddInt32(&bRan, 1)
+				return want, nil
+			}
+			var v any
+			switch {
+			case sc.Kind == "sf" && sc.Ex:
+				v, _, _ = sfB.DoEx(key, fn)
+			case sc.Kind == "sf":
+				v, _ = sfB.Do(key, fn)
+			case sc.Kind == "lc":
+				v, _ = lcB.Do(key, fn)
+			default:
+				res, _ := rmB.Get(key, func() (io.Closer, error) {
+					atomic.AddInt32(&bRan, 1)
+					c := &c18Closer{id: want, key: 1}
+					bmu.Lock()
+					resB = append(resB, c)
+					bmu.Unlock()
+					return c, nil
+				})
+				if c, ok := res.(*c18Closer); !ok || c == nil || c.key != 1 {
+					atomic.AddInt32(&bWrong, 1)
+				}
+				atomic.AddInt32(&bDone, 1)
+				continue
+			}
+			if got, ok := v.(int64); !ok || got != want {
+				atomic.AddInt32(&bWrong, 1)
+			}
+			atomic.AddInt32(&bDone, 1)
+		}
+	}()
+	// B has nothing in flight in its own instance: its calls return without any help from A.
+	// Waiting for them is pacing only for sf/rm (their verdict is read from the final state);
+	// for lc the parked state itself is the witness, so the generous watchdog is used.
+	wait := 20 * time.Millisecond
+	if sc.Kind == "lc" {
+		wait = c18Watchdog
+	}
+	finished := vk.WaitUntil(wait, func() bool { return atomic.LoadInt32(&bDone) == int32(sc.BCalls) })
+	if !finished && sc.Kind == "lc" {
+		parked := vk.GoroutinesIn("syncx.(*lockedGroup).Do")
+		close(gate)
+		if len(parked) > 0 {
+			m.Violate("C18:lockedcalls:blocked-by-other-group", desc, "a call through LockedCalls group B (key %q, nothing else in flight in B) has not entered its callback for %v while a call of group A is parked inside its callback for the same key: exclusion is per group (%d goroutines parked in lockedGroup.Do)", key, c18Watchdog, len(parked))
+		} else {
+			m.Inconclusive("case %d (two instances lc): B's calls did not finish within %v", idx, c18Watchdog)
+		}
+		return false
+	}
+	close(gate)
+	if !c18Join(&wg) {
+		m.Inconclusive("case %d (two instances %s): calls did not finish within %v after the gate opened", idx, sc.Kind, c18Watchdog)
+		return false
+	}
+	ran, wrong := atomic.LoadInt32(&bRan), atomic.LoadInt32(&bWrong)
+	wantRan := int32(sc.BCalls)
+	if sc.Kind == "rm" {
+		wantRan = 1 // B creates its resource once and reuses it
+	}
+	switch {
+	case ran != wantRan:
+		m.Violate("C18:"+name+":instances-not-isolated", desc, "instance B (own, empty) was called %d times with key %q while instance A had a call parked on the same key: B's own callback ran %d times, want %d (B was served by A's execution)", sc.BCalls, key, ran, wantRan)
+		return true
+	case wrong != 0:
+		m.Violate("C18:"+name+":instances-not-isolated", desc, "instance B returned %d results that its own callbacks did not produce (key %q shared with a parked call of instance A)", wrong, key)
+		return true
+	}
+	if sc.Kind == "rm" {
+		_ = rmB.Close()
+		bmu.Lock()
+		defer bmu.Unlock()
+		if a := atomic.LoadInt32(&resA.closed); a != 0 {
+			m.Violate("C18:resourcemanager:instances-not-isolated", desc, "B.Close closed the resource created by manager A")
+			return true
+		}
+		for _, c := range resB {
+			if n := atomic.LoadInt32(&c.closed); n != 1 {
+				m.Violate("C18:resourcemanager:not-closed-on-close", desc, "manager B: its resource #%d was closed %d times by B.Close", c.id, n)
+				return true
+			}
+		}
+		_ = rmA.Close()
+		if a := atomic.LoadInt32(&resA.closed); a != 1 {
+			m.Violate("C18:resourcemanager:not-closed-on-close", desc, "manager A: its resource was closed %d times by A.Close", a)
+			return true
+		}
+	}
+	m.Count(name+"_two_instance_schedules", 1)
+	m.Count(name+"_calls_on_second_instance_while_first_parked", int64(sc.BCalls))
+	m.Case(fmt.Sprintf("iso%s/%d/%v/%v", sc.Kind, sc.BCalls, sc.Ex, finished), true)
 	return true
 }
